@@ -27,6 +27,9 @@ type grp[L any, E any] struct {
 	marshal func(a L) []byte
 	set     func(dst, a L) L
 	isNil   func(a L) bool
+	unm     func(dst L, b []byte) ([]byte, error)
+	unmC    func(dst L, b []byte) ([]byte, error)
+	encC    func(apt[E]) []byte
 }
 
 var grp1 = grp[*vh.G1, *big.Int]{
@@ -40,6 +43,9 @@ var grp1 = grp[*vh.G1, *big.Int]{
 	marshal: func(a *vh.G1) []byte { return a.Marshal() },
 	set:     func(dst, a *vh.G1) *vh.G1 { return dst.Set(a) },
 	isNil:   func(a *vh.G1) bool { return a == nil },
+	unm:     func(dst *vh.G1, b []byte) ([]byte, error) { return dst.Unmarshal(b) },
+	unmC:    func(dst *vh.G1, b []byte) ([]byte, error) { return dst.UnmarshalCompressed(b) },
+	encC:    g1Compressed,
 }
 
 var grp2 = grp[*vh.G2, fp2]{
@@ -53,6 +59,9 @@ var grp2 = grp[*vh.G2, fp2]{
 	marshal: func(a *vh.G2) []byte { return a.Marshal() },
 	set:     func(dst, a *vh.G2) *vh.G2 { return dst.Set(a) },
 	isNil:   func(a *vh.G2) bool { return a == nil },
+	unm:     func(dst *vh.G2, b []byte) ([]byte, error) { return dst.Unmarshal(b) },
+	unmC:    func(dst *vh.G2, b []byte) ([]byte, error) { return dst.UnmarshalCompressed(b) },
+	encC:    g2Compressed,
 }
 
 func (g *grp[L, E]) generator() apt[E] {
@@ -84,14 +93,101 @@ func (g *grp[L, E]) point(a []byte, affine bool) (L, apt[E], error) {
 	return p, m, nil
 }
 
+// ---------------------------------------------------------------- receiver histories
+
+// Receiver states: every operation that writes a G1/G2 element is also run on
+// a receiver with a history - holding a finite point (projective or
+// normalised), the point at infinity, after a failed decode (range error after
+// the first coordinate was stored, or off-curve), after decoding the infinity
+// encoding, after a compressed decode, after a failed compressed decode, and
+// holding a point followed by a failed decode. The result must equal that of a
+// fresh receiver. Slices handed to the earlier calls are overwritten afterwards.
+var recvNames = []string{"fresh", "holds-projective-point", "holds-normalised-point", "holds-infinity",
+	"after-failed-decode(range)", "after-failed-decode(off-curve)", "after-decoding-infinity", "after-compressed-decode",
+	"after-failed-compressed-decode", "holds-point-then-failed-decode"}
+
+const nRecv = 10
+
+func (g *grp[L, E]) usedReceiver(kind int, seed uint64) (L, error) {
+	d := g.newL()
+	var err error
+	m5 := g.cv.mul(g.generator(), big.NewInt(int64(5+seed%7)))
+	mustFail := func(dec func(L, []byte) ([]byte, error), bad []byte, why string) error {
+		a := mkArg(bad, int(seed%2)*4)
+		_, e := dec(d, a.b)
+		if e == nil {
+			return fmt.Errorf("%s decoder accepted %x, which must be rejected: %s", g.name, bad, why)
+		}
+		if err := a.intact(g.name + " decoder"); err != nil {
+			return err
+		}
+		a.scribble()
+		return nil
+	}
+	mustPass := func(dec func(L, []byte) ([]byte, error), good []byte) error {
+		a := mkArg(good, int(seed%2)*4)
+		_, e := dec(d, a.b)
+		if e != nil {
+			return fmt.Errorf("%s decoder rejected the valid encoding %x: %v", g.name, good, e)
+		}
+		if err := a.intact(g.name + " decoder"); err != nil {
+			return err
+		}
+		a.scribble()
+		return nil
+	}
+	offCurve := func() []byte {
+		b := g.enc(m5)
+		b[len(b)-1] ^= 1
+		return b
+	}
+	switch kind {
+	case 1, 2:
+		if d, err = g.base(d, be32(big.NewInt(int64(3+seed%5)))); err != nil {
+			return d, err
+		}
+		if kind == 2 {
+			g.marshal(d)
+		}
+	case 3:
+		d, err = g.base(d, make([]byte, 32))
+	case 4:
+		b := g.enc(m5)
+		copy(b[len(b)-32:], be32(bnP))
+		err = mustFail(g.unm, b, "last coordinate = p")
+	case 5:
+		err = mustFail(g.unm, offCurve(), "not on the curve")
+	case 6:
+		if d, err = g.base(d, be32(big.NewInt(4))); err != nil {
+			return d, err
+		}
+		err = mustPass(g.unm, make([]byte, g.encLen))
+	case 7:
+		err = mustPass(g.unmC, g.encC(m5))
+	case 8:
+		b := g.encC(m5)
+		copy(b[len(b)-32:], be32(bnP))
+		err = mustFail(g.unmC, b, "last coordinate = p")
+	case 9:
+		if d, err = g.base(d, be32(big.NewInt(6))); err != nil {
+			return d, err
+		}
+		err = mustFail(g.unm, offCurve(), "not on the curve")
+	}
+	return d, err
+}
+
 // ---------------------------------------------------------------- scalar multiplication
 
 type smCase struct {
 	Base   bool // ScalarBaseMult(K); otherwise ScalarMult([A]Gen, K)
-	A      h.B  // 32 bytes
+	A      h.B  // 32 bytes (ScalarMult only)
 	K      h.B  // any length
 	Affine bool // operand normalised before use
-	Alias  bool // receiver already holds a point (Base) / receiver is the operand (ScalarMult)
+	Alias  bool // receiver is the operand (ScalarMult only)
+	Recv   int  // receiver history, see recvNames
+	Flav   int  // slice flavour of the scalar argument, see flavourNames
+	Scrib  bool // overwrite the scalar slice after the call returned
 }
 
 func genSM(base bool) func(t *rapid.T) smCase {
@@ -104,32 +200,59 @@ func genSM(base bool) func(t *rapid.T) smCase {
 			} else {
 				c.K = drawScalar32(t, "k")
 			}
-			c.A = be32(big.NewInt(int64(rapid.IntRange(0, 5).Draw(t, "prev"))))
 		} else {
 			c.A = drawScalar32(t, "a")
 			c.K = drawScalarAny(t, "k")
 			c.Affine = rapid.Bool().Draw(t, "affine")
 		}
-		c.Alias = rapid.Bool().Draw(t, "alias")
+		if !base {
+			c.Alias = rapid.Bool().Draw(t, "alias")
+		}
+		c.Recv = rapid.IntRange(0, nRecv-1).Draw(t, "recv")
+		c.Flav = rapid.IntRange(0, nFlavours-1).Draw(t, "flavour")
+		c.Scrib = rapid.Bool().Draw(t, "scribble")
 		return c
 	}
 }
 
 func checkSM[L any, E any](g *grp[L, E]) func(c smCase, r *h.Rec) error {
 	return func(c smCase, r *h.Rec) error {
+		if c.Recv < 0 || c.Recv >= nRecv || c.Flav < 0 || c.Flav >= nFlavours {
+			return nil
+		}
 		k := scalarInt(c.K)
 		nt := labelScalar(r, "k", c.K)
+		seed := uint64(len(c.K))*131 + uint64(c.Flav)
+		karg := mkArg(c.K, c.Flav)
+		r.Label("scalar-slice-" + flavourNames[c.Flav])
+		if len(c.K) == 0 {
+			r.Label("zero-length-scalar-" + flavourNames[c.Flav])
+		}
+		if c.Scrib {
+			r.Label("scalar-slice-scribbled")
+		}
+		// after the call: argument intact, then (optionally) overwritten before
+		// anything is read back from the result
+		after := func(what string) error {
+			if err := karg.intact(what); err != nil {
+				return err
+			}
+			if c.Scrib {
+				karg.scribble()
+			}
+			return nil
+		}
 		if c.Base {
 			r.Label(g.name + "-base")
-			dst := g.newL()
-			if c.Alias {
-				r.Label("receiver-reused")
-				var err error
-				if dst, _, err = g.point(c.A, false); err != nil {
-					return err
-				}
+			r.Label("receiver-" + recvNames[c.Recv])
+			dst, err := g.usedReceiver(c.Recv, seed)
+			if err != nil {
+				return err
 			}
-			got, err := g.base(dst, c.K)
+			got, err := g.base(dst, karg.b)
+			if e := after(g.name + ".ScalarBaseMult"); e != nil {
+				return e
+			}
 			if len(c.K) != 32 {
 				r.NT()
 				r.Label("base-wrong-length")
@@ -140,24 +263,29 @@ func checkSM[L any, E any](g *grp[L, E]) func(c smCase, r *h.Rec) error {
 					return fmt.Errorf("%s.ScalarBaseMult returned both an element and error %v", g.name, err)
 				}
 				// the documented way to feed such a scalar: NormalizeScalar
-				// (left-pads short ones, reduces longer ones mod n)
-				norm := vh.NormalizeScalar(append([]byte{}, c.K...))
+				// (left-pads short ones, reduces longer ones mod n); the same
+				// receiver is used again after the failed call
+				narg := mkArg(c.K, c.Flav)
+				norm := append([]byte{}, vh.NormalizeScalar(narg.b)...)
+				if err := narg.intact("NormalizeScalar"); err != nil {
+					return err
+				}
 				if len(norm) != 32 {
 					return fmt.Errorf("NormalizeScalar(%x) has %d bytes", []byte(c.K), len(norm))
 				}
-				got, err = g.base(g.newL(), norm)
+				got, err = g.base(dst, norm)
 				if err != nil {
 					return fmt.Errorf("%s.ScalarBaseMult(NormalizeScalar(%x)) failed: %v", g.name, []byte(c.K), err)
 				}
 				want := g.enc(g.cv.mul(g.generator(), modN(k)))
-				return eqBytes(fmt.Sprintf("%s.ScalarBaseMult(NormalizeScalar(%x)) != [k mod n]Gen", g.name, []byte(c.K)), g.view(got), want)
+				return eqBytes(fmt.Sprintf("%s.ScalarBaseMult(NormalizeScalar(%x)) [receiver %s, then a failed ScalarBaseMult] != [k mod n]Gen", g.name, []byte(c.K), recvNames[c.Recv]), g.view(got), want)
 			}
 			if err != nil {
 				return fmt.Errorf("%s.ScalarBaseMult(%x) failed: %v", g.name, []byte(c.K), err)
 			}
-			r.NTIf(nt || modN(k).Sign() == 0)
+			r.NTIf(nt || modN(k).Sign() == 0 || c.Recv >= 3)
 			want := g.enc(g.cv.mul(g.generator(), modN(k)))
-			return eqBytes(fmt.Sprintf("%s.ScalarBaseMult(%x) != [k mod n]Gen", g.name, []byte(c.K)), g.view(got), want)
+			return eqBytes(fmt.Sprintf("%s.ScalarBaseMult(%x) [receiver %s, scribbled=%v] != [k mod n]Gen", g.name, []byte(c.K), recvNames[c.Recv], c.Scrib), g.view(got), want)
 		}
 		r.Label(g.name + "-var")
 		p, pm, err := g.point(c.A, c.Affine)
@@ -169,20 +297,29 @@ func checkSM[L any, E any](g *grp[L, E]) func(c smCase, r *h.Rec) error {
 		}
 		before := g.view(p)
 		wantM := g.cv.mul(pm, modN(k))
-		dst := g.newL()
+		var dst L
 		if c.Alias {
 			r.Label("receiver=operand")
 			dst = p
+		} else {
+			r.Label("receiver-" + recvNames[c.Recv])
+			if dst, err = g.usedReceiver(c.Recv, seed); err != nil {
+				return err
+			}
 		}
-		got, err := g.mult(dst, p, c.K)
+		got, err := g.mult(dst, p, karg.b)
+		if e := after(g.name + ".ScalarMult"); e != nil {
+			return e
+		}
 		if err != nil {
 			return fmt.Errorf("%s.ScalarMult([%x]Gen, %x) failed: %v", g.name, []byte(c.A), []byte(c.K), err)
 		}
-		r.NTIf(nt || wantM.Inf || len(c.K) != 32)
+		r.NTIf(nt || wantM.Inf || len(c.K) != 32 || (!c.Alias && c.Recv >= 3))
 		if wantM.Inf {
 			r.Label("result=infinity")
 		}
-		if err := eqBytes(fmt.Sprintf("%s.ScalarMult([%x]Gen, %x) != [k mod n]P", g.name, []byte(c.A), []byte(c.K)), g.view(got), g.enc(wantM)); err != nil {
+		if err := eqBytes(fmt.Sprintf("%s.ScalarMult([%x]Gen, %x) [scalar slice %s, scribbled=%v, alias=%v, receiver %s] != [k mod n]P", g.name, []byte(c.A), []byte(c.K), flavourNames[c.Flav], c.Scrib, c.Alias, recvNames[c.Recv]),
+			g.view(got), g.enc(wantM)); err != nil {
 			return err
 		}
 		if !c.Alias {
@@ -207,7 +344,7 @@ func TestC09_G2BaseMult(t *testing.T) {
 }
 
 func TestC09_G2ScalarMult(t *testing.T) {
-	h.Prop(t, h.P{Name: "g2-scalarmult", Quick: 300, Thorough: 4000, Journal: true}, genSM(false), checkSM(&grp2))
+	h.Prop(t, h.P{Name: "g2-scalarmult", Quick: 250, Thorough: 4000, Journal: true}, genSM(false), checkSM(&grp2))
 }
 
 // ---------------------------------------------------------------- single-window sweeps
@@ -445,7 +582,11 @@ func TestC09_G2Add(t *testing.T) {
 // every internal representation the library produces (after Neg, after Add,
 // normalised, infinity) rather than only fresh outputs of ScalarBaseMult.
 type op struct {
-	Kind int // 0 Add, 1 Neg, 2 Double, 3 ScalarMult by K, 4 normalise (Marshal), 5 Set
+	// 0 Add, 1 Neg, 2 Double, 3 ScalarMult by K, 4 normalise (Marshal), 5 Set,
+	// 6 decode the encoding of rX into rDst (K even: Unmarshal, odd: UnmarshalCompressed; K&2: input overwritten afterwards),
+	// 7 a failing decode into rDst followed by a decode of rX's encoding into the same element,
+	// 8 ScalarBaseMult(K) into rDst, 9 Marshal rX and overwrite the returned slice
+	Kind int
 	Dst  int
 	X, Y int
 	K    int
@@ -456,7 +597,7 @@ type chainCase struct {
 	Ops  []op
 }
 
-var opNames = []string{"add", "neg", "double", "scalarmult", "normalise", "set"}
+var opNames = []string{"add", "neg", "double", "scalarmult", "normalise", "set", "decode", "failed-decode-then-decode", "basemult", "marshal-scribble"}
 
 func genChain(t *rapid.T) chainCase {
 	c := chainCase{}
@@ -466,7 +607,7 @@ func genChain(t *rapid.T) chainCase {
 	n := rapid.IntRange(1, 12).Draw(t, "nops")
 	for i := 0; i < n; i++ {
 		c.Ops = append(c.Ops, op{
-			Kind: rapid.SampledFrom([]int{0, 0, 0, 0, 1, 1, 2, 2, 3, 4, 5}).Draw(t, "kind"),
+			Kind: rapid.SampledFrom([]int{0, 0, 0, 0, 1, 1, 2, 2, 3, 4, 5, 6, 6, 7, 7, 8, 9}).Draw(t, "kind"),
 			Dst:  rapid.IntRange(0, 2).Draw(t, "dst"),
 			X:    rapid.IntRange(0, 2).Draw(t, "x"),
 			Y:    rapid.IntRange(0, 2).Draw(t, "y"),
@@ -493,7 +634,7 @@ func checkChain[L any, E any](g *grp[L, E]) func(c chainCase, r *h.Rec) error {
 		trace := ""
 		nt := false
 		for i, o := range c.Ops {
-			if o.Dst < 0 || o.Dst > 2 || o.X < 0 || o.X > 2 || o.Y < 0 || o.Y > 2 || o.Kind < 0 || o.Kind > 5 || o.K < 0 {
+			if o.Dst < 0 || o.Dst > 2 || o.X < 0 || o.X > 2 || o.Y < 0 || o.Y > 2 || o.Kind < 0 || o.Kind >= len(opNames) || o.K < 0 {
 				return nil
 			}
 			trace += fmt.Sprintf(" %d:%s(r%d<-r%d,r%d,k=%d)", i, opNames[o.Kind], o.Dst, o.X, o.Y, o.K)
@@ -527,6 +668,60 @@ func checkChain[L any, E any](g *grp[L, E]) func(c chainCase, r *h.Rec) error {
 			case 5:
 				g.set(reg[o.Dst], reg[o.X])
 				mod[o.Dst] = mod[o.X]
+			case 6, 7:
+				nt = true
+				src := mod[o.X]
+				if o.Kind == 7 {
+					// a decode that fails late (after the first coordinate was
+					// stored) or on the curve test; the element is written again
+					// right afterwards, so its state in between is never read
+					bad := g.enc(g.cv.mul(g.generator(), big.NewInt(int64(o.K+2))))
+					why := "not on the curve"
+					if o.K%3 == 0 {
+						copy(bad[len(bad)-32:], be32(bnP))
+						why = "last coordinate = p"
+					} else {
+						bad[len(bad)-1] ^= 1
+					}
+					a := mkArg(bad, o.K&4)
+					if _, err := g.unm(reg[o.Dst], a.b); err == nil {
+						return fmt.Errorf("%s.Unmarshal accepted %x, which must be rejected: %s (trace%s)", g.name, bad, why, trace)
+					}
+					a.scribble()
+				}
+				dec, encd := g.unm, g.enc(src)
+				if o.K%2 == 1 && !src.Inf {
+					dec, encd = g.unmC, g.encC(src)
+				}
+				a := mkArg(encd, o.K&4)
+				rest, err := dec(reg[o.Dst], a.b)
+				if err != nil {
+					return fmt.Errorf("%s decoder rejected the valid encoding %x: %v (trace%s)", g.name, encd, err, trace)
+				}
+				if len(rest) != 0 {
+					return fmt.Errorf("%s decoder returned a rest of %d bytes for an exact-length input (trace%s)", g.name, len(rest), trace)
+				}
+				if err := a.intact(g.name + " decoder"); err != nil {
+					return err
+				}
+				if o.K&2 != 0 {
+					a.scribble()
+				}
+				mod[o.Dst] = src
+			case 8:
+				nt = true
+				a := mkArg(be32(big.NewInt(int64(o.K))), o.K&4)
+				if _, err := g.base(reg[o.Dst], a.b); err != nil {
+					return fmt.Errorf("%s.ScalarBaseMult failed: %v (trace%s)", g.name, err, trace)
+				}
+				a.scribble()
+				mod[o.Dst] = g.cv.mul(g.generator(), big.NewInt(int64(o.K)))
+			case 9:
+				b := g.marshal(reg[o.X])
+				if err := eqBytes(fmt.Sprintf("%s.Marshal(r%d) after%s", g.name, o.X, trace), b, g.enc(mod[o.X])); err != nil {
+					return err
+				}
+				scribble(b)
 			}
 			for j := range reg {
 				if err := eqBytes(fmt.Sprintf("%s register r%d after%s (init %x %x %x)", g.name, j, trace, []byte(c.Init[0]), []byte(c.Init[1]), []byte(c.Init[2])),
